@@ -263,8 +263,10 @@ def decide(prop, tier, seed):
         print("KNOWN-FINDING: property=%s %s [%s]" % (prop, k["what"], f["oid"]))
     if new:
         import replay
-        for f in new:
-            path, found = replay.record(prop, f, tier)
+        for k, f in enumerate(new):
+            # concrete replays are expensive (Kani playback + native builds): the first two violations get one, the rest
+            # name their obligation and carry the verifier output
+            path, found = replay.record(prop, f, tier, concrete=(k < 2))
             tail = "" if found else " no-failing-input-found"
             print("VIOLATION property=%s replay=%s%s" % (prop, path, tail))
             print("  failed obligation: %s (%s)" % (f["oid"], f["engine"]))
